@@ -59,8 +59,11 @@ type Ctx struct {
 	extra    map[string]interface{}
 	start    time.Time
 
-	ginitCache map[*ssa.Global]*ssa.Function
-	gmemo      map[string]int
+	ginitCache    map[*ssa.Global]*ssa.Function
+	identMemo     map[*ssa.Function]int
+	inlineHelpers bool
+	phiEdgeLive   func(phi *ssa.Phi, i int) bool // optional: restricts φ edges when rendering canonical forms
+	gmemo         map[string]int
 }
 
 func isMockPath(p string) bool {
@@ -301,8 +304,10 @@ func (c *Ctx) Unresolved(rule, what string) {
 // Min declares the minimal number of instances a rule must have bound.
 func (c *Ctx) Min(rule string, n int) { c.mins[rule] = n }
 
-func (c *Ctx) Note(format string, a ...interface{}) { c.notes = append(c.notes, short(fmt.Sprintf(format, a...))) }
-func (c *Ctx) Assume(s string)                        { c.assume = append(c.assume, s) }
+func (c *Ctx) Note(format string, a ...interface{}) {
+	c.notes = append(c.notes, short(fmt.Sprintf(format, a...)))
+}
+func (c *Ctx) Assume(s string) { c.assume = append(c.assume, s) }
 func (c *Ctx) Analysed(f *ssa.Function) {
 	if f != nil {
 		c.analysed[f] = true
@@ -365,6 +370,9 @@ func (c *Ctx) Finish(explanation string) int {
 	counts := map[string]int{}
 	for _, o := range c.obls {
 		counts[o.Rule]++
+		if os.Getenv("STCHECK_OBLS") != "" {
+			fmt.Printf("OBL %s::%s ok=%v\n", o.Rule, o.Key, o.OK)
+		}
 	}
 	var rules []string
 	for r := range c.mins {
